@@ -374,13 +374,13 @@ impl Prop for C03 {
             ));
         }
         {
-            const NAMES: [&str; 10] = ["lump sum", "take-home pay", "net-income", "unit times", "sum total", "a-b", "tax in", "half of it", "cost per day", "rate as of june"];
+            const NAMES: [&str; 14] = ["lump sum", "take-home pay", "net-income", "unit times", "sum total", "a-b", "tax in", "half of it", "cost per day", "rate as of june", "tax_rate", "a_b_c", "cat food", "west wing"];
             const T_LINES: [&str; 12] = ["@ = 5", "@ = 7", "@ = @ + 5", "@ + 1", "2 * @", "x = @", "x + @", "@ = 1 +", "@", "@ = 10 usd", "@ to eur", "@ = 1 usd + 1 km"];
             let dr = tier.pick(3, 4);
             f.push(Family::new(
                 "renamed-programs",
                 Mode::Full,
-                &format!("names that contain an operator word, a connective keyword, a month word or a hyphen ({:?}): every program of 'x = 3', a line that binds the name, and 1..={} lines over {} line kinds (bind, re-bind, re-bind through itself, uses, failing re-bindings, money) gives the same slots as the same program written with the plain name 'alpha beta'", NAMES, dr, T_LINES.len()),
+                &format!("names that contain an operator word, a connective keyword, a month word, a hyphen, an underscore or a word that is also a time zone abbreviation ({:?}): every program of 'x = 3', a line that binds the name, and 1..={} lines over {} line kinds (bind, re-bind, re-bind through itself, uses, failing re-bindings, money) gives the same slots as the same program written with the plain name 'alpha beta'", NAMES, dr, T_LINES.len()),
                 move |ch| {
                     let name = *ch.pick(&NAMES);
                     let n = 2 + ch.choose(dr);
@@ -396,6 +396,23 @@ impl Prop for C03 {
                         plain.push(t.replace('@', "alpha beta"));
                     }
                     Some(Case { lines, bfs: None, plain: Some(plain) })
+                },
+            ));
+        }
+        {
+            const ZW_LINES: [&str; 12] = ["CAT food = 5", "cat food = 7", "cat food + 1", "Cat Food * 2", "CAT FOOD", "West Wing = 12", "WEST wing = 20", "west wing", "cat food = cat food + 1", "b = Cat food", "art budget = 100", "ART BUDGET = art budget + 50"];
+            let dz = tier.pick(3, 4);
+            f.push(Family::new(
+                "zone-word-names",
+                Mode::Full,
+                &format!("every program of 1..={} lines over {} line kinds whose names contain a word that is also a time zone abbreviation (cat, west, art), bound and used in lower, Capitalised and UPPER case: a name is case-insensitive whatever else its words may mean", dz, ZW_LINES.len()),
+                move |ch| {
+                    let n = 1 + ch.choose(dz);
+                    let mut lines = Vec::new();
+                    for _ in 0..n {
+                        lines.push(ch.pick(&ZW_LINES).to_string());
+                    }
+                    Some(Case { lines, bfs: None, plain: None })
                 },
             ));
         }
